@@ -571,11 +571,16 @@ inline int e1_main(int argc, char** argv, bool inproc = false) {
     // --sweep N: the saved schedule seed only reproduces on an identical
     // binary; a regression replay therefore also tries the N-1 following
     // schedule seeds of the same case and counts how many fail
-    Case base = c;
+    // (only harnesses whose cases begin with the schedule fields have a
+    // schedule seed; the others replay the saved case unchanged, a few times)
+    Case base       = c;
+    bool sched_case = FIELDS.size() > (size_t)S_SEED && std::string(FIELDS[S_SEED]) == "sseed";
+    if (!sched_case)
+      sweep = std::min(sweep, 3);
     times *= sweep;
     for (int i = 0; i < times; ++i) {
       c         = base;
-      if (c.f.size() > (size_t)S_SEED)
+      if (sched_case)
         c[S_SEED] += i % sweep;
       Outcome o = run_in_child(c);
       if (o.status == "FAIL") {
